@@ -41,7 +41,7 @@ CHECK = dict(
           "objects with at least one hit (raycast), pairs with a positive gap below at least one search length (mingap). Counters give the "
           "judged sample points, segments, hits, and the MinGap outcome classes (crossing / contained / gap below L / clamped). At most one "
           "violation per check class and object is reported; its key names the first failing query, its detail the number of failing queries."),
-    bounds=dict(quick=("679 objects (<= 992 triangles, 22.2k in total; 1-3 components, 0-3 handles); 407 winding points, 7x144 slice samples, 256 "
+    bounds=dict(quick=("754 objects (incl. 75 unions of bounding-box-disjoint lazily rotated parts; 1-3 components, 0-3 handles); 407 winding points, 7x144 slice samples, 256 "
                        "projection samples per object; 64-point ray lattice = 2.74M segments; 48 placed objects = 2256 ordered pairs x 3 search "
                        "lengths"),
                 thorough=("972 objects (all 21 seeds as Boolean operands, 53.6k triangles); 216-point ray lattice (46 440 segments per object, 45M "
